@@ -532,8 +532,16 @@ def _kernel_bools(ctx, name, terms, shard):
     return fw.kernel_eval(ctx, name, ['Base.Flat'] + REQ, body, len(terms), shard)
 
 
-def check_runs(ctx, part, labelled_texts, report=True):
-    """Run the inputs through main(), evaluate every clause in the kernel.  -> list of (label, text, failing clauses)."""
+def check_runs(ctx, part, labelled_texts, report=True, batch=128):
+    """Run the inputs through main(), evaluate every clause in the kernel.  -> list of (label, text, failing clauses).
+    Batches bound the memory held in snapshots and Coq terms (the thorough tier runs several hundred inputs)."""
+    out = []
+    for lo in range(0, len(labelled_texts), batch):
+        out += _check_batch(ctx, part, labelled_texts[lo:lo + batch], report)
+    return out
+
+
+def _check_batch(ctx, part, labelled_texts, report):
     results = runner.run_many(ctx, [t for _, t in labelled_texts])
     items, dist = [], {}
     for (label, text), r in zip(labelled_texts, results):
